@@ -111,7 +111,7 @@ func attributeValueClass(c context) string {
 		s += "AmbiguousPrefix"
 	case urlPrefixLeavesSchemeOpen(sc, c.attr.value):
 		s += "UnsafePrefix"
-	case strings.ContainsAny(c.attr.value, "#?"):
+	case strings.ContainsAny(html.UnescapeString(c.attr.value), "#?"):
 		s += "Query"
 	default:
 		s += "Prefix"
@@ -181,7 +181,7 @@ func sanitizersForAttributeValue(c context) ([]string, error) {
 		// to prevent the injection of any new path segments or URL components. Moreover, they must
 		// not contain any ".." dot-segments.
 		ret = append(ret, queryEscapeURLFuncName, validateTrustedResourceURLSubstitutionFuncName)
-	case strings.ContainsAny(urlAttrValPrefix, "#?"):
+	case strings.ContainsAny(html.UnescapeString(urlAttrValPrefix), "#?"):
 		// For URLs, we only escape in the query or fragment part to prevent the injection of new query
 		// parameters or fragments.
 		ret = append(ret, queryEscapeURLFuncName)
